@@ -405,6 +405,9 @@ TEMPLATES = [
     '```{p}\ncode {q}\n```', '~~~ {p}\ncode\n~~~', '~~~{p} {q}\n{p}\n~~~', '    {p}', '`{p}`', '``{p}``', '*{p}*', '**{p}**', '~~{p}~~',
     '# {p}', '{p}\n===', '> {p}', '- {p}', '1. {p}', '| {p} | b |\n|---|:-:|\n| c | {q} |', '|{p}|\n|-|\n|`{q}`|', '{p}  \n{q}', '{p}\\\n{q}',
     '<div>{p}</div>', '<!-- {p} -->', 'a <b {p}> c', 'a <b x="{p}"> c', '&{p};', '&#{p};', '\\{p}', '{p}',
+    # renderer-specific span tokens (math, wiki links) inside image descriptions, link texts, headings and table cells
+    '![costs $5 or $6 {p}](/u)', '![a $x_1$ b](u "t")', '![x [[a|b]] y](u)', '[a $x$ [[w]] b](u)', '# $a$ [[b|c]] {p}', '| $a$ | [[b]] |\n|---|---|\n| ![$q$](u) | x |',
+    '![~~s~~ `c` <b> \\* &amp; <http://x.y>](u)', '![![inner $m$](v)](u)',
     # raw inline HTML inside an image description ends up in the alt attribute
     '![a <b x="{q}"> c](u)', '![<i class="big"> {p}](u "t")', '![a <!-- {q} --> b](u)', '[![x <b {q}> y](s)](u "{p}")', '![a <?{q}?> </b>][r]\n\n[r]: u',
 ]
